@@ -11,6 +11,7 @@ import (
 	"errors"
 	"fmt"
 	"os"
+	"math/rand"
 	"path/filepath"
 	"runtime/debug"
 	"sort"
@@ -68,6 +69,8 @@ type Mid struct {
 }
 
 type Scenario struct {
+	Mode    string          `json:"mode"` // "" = replay a TLC scenario; "random" = seeded long run recorded as a trace
+	Rand    *RandReq        `json:"rand"`
 	Steps   []Step          `json:"steps"`
 	Out     string          `json:"out"`
 	Abs     []TabOut        `json:"abs"`
@@ -101,6 +104,7 @@ type Result struct {
 	Feat     []string            `json:"feat,omitempty"`
 	CacheFul bool                `json:"cachefull,omitempty"`
 	Graph    *Graph              `json:"graph,omitempty"`
+	Stats    map[string]int      `json:"stats,omitempty"`
 }
 
 type RowOut struct {
@@ -975,6 +979,8 @@ func main() {
 			var res Result
 			if e := json.Unmarshal(line, &sc); e != nil {
 				res = Result{OK: false, Diverged: "bad request: " + e.Error()}
+			} else if sc.Mode == "random" && sc.Rand != nil {
+				res = randomRun(*sc.Rand)
 			} else {
 				res = replay(sc)
 			}
@@ -988,3 +994,318 @@ func main() {
 		}
 	}
 }
+
+// ---------------------------------------------------------------- random long runs (code -> specification)
+
+type RandReq struct {
+	Seed       int64   `json:"seed"`
+	N          int     `json:"n"`
+	Caps       []int   `json:"caps"`
+	Cache      int     `json:"cache"`
+	PCrash     float64 `json:"pcrash"`
+	PFlush     float64 `json:"pflush"`
+	Wal        bool    `json:"wal"` // crashes inside log appends too
+	MaxRows    int     `json:"maxrows"`
+	Out        string  `json:"out"`
+	GraphEvery int     `json:"graphevery"`
+	GraphOut   string  `json:"graphout"`
+	Bias       string  `json:"bias"` // "grow": mostly inserts into one table (deep trees)
+}
+
+// recOps decodes the op byte of every recorded log record body.
+func recOps(ios []storage.VerifIO) []byte {
+	var ops []byte
+	for _, x := range ios {
+		if x.File == "wal" && x.Kind == "body" && len(x.Data) > 0 {
+			ops = append(ops, x.Data[0])
+		}
+	}
+	return ops
+}
+
+// durableRecords: how many complete records the log holds if the process dies before wal event e.
+func durableRecords(ios []storage.VerifIO, e int, keep bool) int {
+	n, synced, i := 0, 0, 0
+	for _, x := range ios {
+		if x.File != "wal" {
+			continue
+		}
+		if i >= e {
+			break
+		}
+		i++
+		switch x.Kind {
+		case "body":
+			n++
+		case "sync":
+			synced = n
+		}
+	}
+	if keep {
+		return n
+	}
+	return synced
+}
+
+func randomRun(rq RandReq) (res Result) {
+	res.OK = true
+	res.Stats = map[string]int{}
+	rng := newRand(rq.Seed)
+	w := &World{cache: rq.Cache}
+	defer func() {
+		if w.sess != nil && w.sess.RelationService != nil {
+			storage.VerifAbandon(w.sess.RelationService)
+		}
+		storage.VerifForgetStores()
+	}()
+	if err := w.reset(rq.Caps); err != nil {
+		res.Diverged = "setup failed: " + err.Error()
+		return
+	}
+	f, err := os.Create(rq.Out)
+	if err != nil {
+		res.Diverged = err.Error()
+		return
+	}
+	defer f.Close()
+	bw := bufio.NewWriterSize(f, 1<<20)
+	defer bw.Flush()
+	enc := json.NewEncoder(bw)
+	var gw *bufio.Writer
+	var genc *json.Encoder
+	if rq.GraphOut != "" {
+		gf, err := os.Create(rq.GraphOut)
+		if err != nil {
+			res.Diverged = err.Error()
+			return
+		}
+		defer gf.Close()
+		gw = bufio.NewWriterSize(gf, 1<<20)
+		defer gw.Flush()
+		genc = json.NewEncoder(gw)
+	}
+	ev := func(m map[string]interface{}) { enc.Encode(m); res.Stats["events"]++ }
+	ev(map[string]interface{}{"e": "reset"})
+	fail := func(msg string) Result {
+		res.OK = false
+		res.Viol = append(res.Viol, msg)
+		return res
+	}
+	tables := []string{"t1", "t2"}
+	observe := func(which []string) bool {
+		obs, probs := w.observe()
+		probs = append(probs, w.rowChecks(obs)...)
+		if len(probs) > 0 {
+			res.OK = false
+			res.Viol = append(res.Viol, probs...)
+			return false
+		}
+		for _, t := range which {
+			rs, ok := obs[t]
+			rows := []int{}
+			if ok {
+				rows = vals(rs)
+			}
+			ev(map[string]interface{}{"e": "select", "t": t, "rows": rows, "exists": ok})
+		}
+		return true
+	}
+	dumpGraph := func() bool {
+		if genc == nil {
+			return true
+		}
+		g, probs := w.graph()
+		if len(probs) > 0 {
+			res.OK = false
+			res.Viol = append(res.Viol, probs...)
+			return false
+		}
+		genc.Encode(g)
+		res.Stats["graphs"]++
+		lv := 0
+		byID := map[int]storage.VerifPage{}
+		for _, p := range g.Pages {
+			byID[p.ID] = p
+		}
+		for _, r := range g.Roots {
+			d, cur, ok := 1, byID[r], true
+			for ok && cur.Kind == "I" && len(cur.Kids) > 0 && d < 10 {
+				cur, ok = byID[cur.Kids[0]]
+				d++
+			}
+			if d > lv {
+				lv = d
+			}
+		}
+		if lv > res.Stats["levels"] {
+			res.Stats["levels"] = lv
+		}
+		return true
+	}
+	recoverAndObserve := func() bool {
+		if dead, msg := w.recoverNow(); dead {
+			res.OK = false
+			res.Viol = append(res.Viol, "the database does not start after the crash: "+msg)
+			return false
+		}
+		ev(map[string]interface{}{"e": "pause", "what": "recovered"})
+		res.Stats["recoveries"]++
+		return observe(tables)
+	}
+	for _, t := range tables {
+		e, p := w.exec(renderStmt(Step{A: "create", T: t}))
+		if p {
+			return fail("CREATE TABLE panicked: " + e.Error())
+		}
+		ev(map[string]interface{}{"e": "create", "t": t, "ok": e == nil})
+	}
+	maxRows := rq.MaxRows
+	if maxRows <= 0 {
+		maxRows = 8
+	}
+	for i := 0; i < rq.N; i++ {
+		t := tables[rng.Intn(len(tables))]
+		if rq.Bias == "grow" && rng.Intn(10) < 8 {
+			t = "t1"
+		}
+		st := Step{T: t}
+		evm := map[string]interface{}{"t": t}
+		p := rng.Intn(100)
+		switch {
+		case p < 60 || (rq.Bias == "grow" && p < 88):
+			st.A = "insert"
+			n := 1 + rng.Intn(maxRows)
+			for j := 0; j < n; j++ {
+				st.Rows = append(st.Rows, 1+rng.Intn(5))
+			}
+			evm["rows"] = st.Rows
+		case p < 74:
+			st.A, st.W, st.V = "update", rng.Intn(6), 1+rng.Intn(5)
+			evm["w"], evm["v"] = st.W, st.V
+		case p < 86:
+			st.A, st.W = "delete", 1+rng.Intn(5)
+			evm["w"] = st.W
+		case p < 90:
+			st.A = "insert"
+			st.Rows = []int{-1 - rng.Intn(4), 1 + rng.Intn(5)} // the first row is invalid: nothing may change
+			st.Rows = st.Rows[:1+rng.Intn(2)]
+			evm["rows"] = st.Rows
+		case p < 93:
+			st.A = "create"
+		default:
+			if !observe([]string{t}) {
+				return
+			}
+			continue
+		}
+		evm["e"] = st.A
+		crash := st.A != "create" && st.Rows != nil || st.A == "update" || st.A == "delete"
+		crash = crash && rng.Float64() < rq.PCrash && !(len(st.Rows) > 0 && st.Rows[0] < 0)
+		inWal := crash && rq.Wal && rng.Intn(10) < 6
+		var before snap
+		if inWal {
+			before = takeSnap()
+			storage.VerifRecordIO(true)
+		}
+		e, panicked := w.exec(renderStmt(st))
+		var ios []storage.VerifIO
+		if inWal {
+			ios = storage.VerifTakeIO()
+			storage.VerifRecordIO(false)
+		}
+		if panicked {
+			return fail(fmt.Sprintf("statement %q panicked: %v", renderStmt(st), e))
+		}
+		if rq.Cache > 0 {
+			if errors.Is(e, storage.ErrLRUCacheFull) {
+				res.CacheFul = true
+				res.Diverged = "precondition of C16 not met: cache full of dirty pages"
+				return
+			}
+			if fe := storage.VerifFlush(w.sess.RelationService); fe != nil {
+				return fail("flush failed: " + fe.Error())
+			}
+		}
+		res.Stats["stmts"]++
+		nWal := 0
+		for _, x := range ios {
+			if x.File == "wal" {
+				nWal++
+			}
+		}
+		if inWal && e == nil && nWal > 0 {
+			// the process dies before log write call number cut (0-based), tail kept or not
+			cut := rng.Intn(nWal)
+			keep := rng.Intn(2) == 0
+			ops := recOps(ios)
+			for cut < nWal {
+				nd := durableRecords(ios, cut, keep)
+				if nd >= 1 && nd < len(ops) && ops[nd-1] == 0 && ops[nd] == 1 {
+					cut++ // known finding rootmove-record-cut: not a cut this driver takes
+					res.Stats["rootmove-cuts-avoided"]++
+					continue
+				}
+				break
+			}
+			if cut < nWal {
+				walNow, _ := walCut(before.wal, ios, cut, keep)
+				cur := takeSnap()
+				w.abandon()
+				if err := writeImage(cur.tbl, walNow); err != nil {
+					res.Diverged = err.Error()
+					return
+				}
+				evm["e"] = "cut-" + st.A
+				ev(evm)
+				res.Stats["crash-in-log"]++
+				if !recoverAndObserve() {
+					return
+				}
+				continue
+			}
+		}
+		evm["ok"] = e == nil
+		ev(evm)
+		if crash && !inWal || (inWal && e == nil) {
+			w.abandon()
+			res.Stats["crash-idle"]++
+			if !recoverAndObserve() {
+				return
+			}
+			continue
+		}
+		if rq.Cache == 0 && rng.Float64() < rq.PFlush {
+			if fe := storage.VerifFlush(w.sess.RelationService); fe != nil {
+				return fail("flush failed: " + fe.Error())
+			}
+			ev(map[string]interface{}{"e": "pause", "what": "flush"})
+			res.Stats["flushes"]++
+		}
+		if rq.GraphEvery > 0 && i%rq.GraphEvery == 0 {
+			if !dumpGraph() {
+				return
+			}
+		}
+		if i%12 == 0 {
+			if !observe([]string{t}) {
+				return
+			}
+		}
+	}
+	if !observe(tables) {
+		return
+	}
+	dumpGraph()
+	obs, _ := w.observe()
+	for _, t := range tables {
+		if len(obs[t]) > res.Stats["maxrows"] {
+			res.Stats["maxrows"] = len(obs[t])
+		}
+	}
+	if rq.Cache > 0 {
+		res.Stats["cachelen"] = storage.VerifCacheLen(w.sess.RelationService)
+	}
+	return
+}
+
+func newRand(seed int64) *rand.Rand { return rand.New(rand.NewSource(seed)) }
